@@ -914,10 +914,13 @@ class MatrixProduct:
         else:
             assert self.qnidx == self.site_num-1
 
-        for idx in self.iter_idx_list(full=False, stop_idx=stop_idx):
+        idx_list = self.iter_idx_list(full=False, stop_idx=stop_idx)
+        for idx in idx_list:
             self._push_cano(idx)
         # can't iter to idx == 0 or idx == self.site_num - 1
-        if (not self.to_right and idx == 1) or (self.to_right and idx == self.site_num - 2):
+        # nothing to do (and `idx` is not defined) if the sweep is empty
+        if len(idx_list) > 0 and \
+                ((not self.to_right and idx == 1) or (self.to_right and idx == self.site_num - 2)):
             self._switch_direction()
         return self
 
